@@ -47,7 +47,9 @@ ASSUMPTIONS = [
     "its own quote character",
     "the class of result.unwrapped_combine is the most severe class present (C03)",
 ]
-TRUSTED = ["the Python printer tree -> CEL text and the converter lark.Tree -> Gallina term (both exercised by the "
+TRUSTED = ["the watch stream observes koreo.registry._SUBSCRIBER_RESOURCES and a counting wrapper around the preparer "
+           "handed to cache.prepare_and_cache; 12 event-loop turns (asyncio.sleep(0)) are allowed for a re-prepare",
+           "the Python printer tree -> CEL text and the converter lark.Tree -> Gallina term (both exercised by the "
            "parse stream: print, parse with the real parser, compare)",
            "watched_complete for ResourceFunction / FunctionTest is a straight-line model tied by correspondence only"]
 
@@ -1624,6 +1626,7 @@ def run(ctx: Ctx):
                 lst_t.append(r[1])
 
         # -- corpus first
+        corpus_watch = []
         for c in corpus_cases("C14"):
             c = c.get("case", c)
             if c.get("kind") == "extract" and c.get("src") is not None:
@@ -1631,6 +1634,8 @@ def run(ctx: Ctx):
             elif c.get("kind") == "workflow":
                 add(wf_cases, wf_terms, check_workflow(ctx, c["spec"], [[tuple(x) for x in pl] for pl in c["planted"]],
                                                        bucket="corpus-wf"))
+            elif c.get("kind") == "watch":
+                corpus_watch.append(c)
         # -- hand-written expressions (every grammar rule); names read off the text
         for src in HAND_CORPUS:
             add(ex_cases, ex_terms, check_expression(ctx, src, textual_refs(src), bucket="hand"))
@@ -1693,6 +1698,9 @@ def run(ctx: Ctx):
             add(misc_cases, misc_terms, check_ft(ctx, *gen_ft(rng)))
 
         # -- the watch list as consumed by the real cache/registry (empties the cache: keep last)
+        for c in corpus_watch:
+            check_watch(ctx, c["definition"], [tuple(r) for r in c["initial"]],
+                        [(e[0], tuple(e[1]) if e[1] else None) for e in c["events"]])
         for defn, initial, events in watch_cases(rng, 40 if q else 600):
             check_watch(ctx, defn, initial, events)
 
